@@ -38,7 +38,8 @@ PROP = {
             "followed by a duplicate; statements on missing names and DDL that must be refused; a reader that began before a CREATE "
             "committed; reopen, also with an open session holding DML and DDL. A further family (60 / 600 cases): DROP TABLE in a session that rolls back or is dropped, then — after reads, an insert or a "
             "reopen — a DROP TABLE that commits, the name probed, created again with another shape and read, also across reopen. "
-            "At most one finding feature per case (tags `kf:…`). "
+            "And (40 / 400 cases) CREATE UNIQUE INDEX / ADD CONSTRAINT over colliding rows: refused, the table stays usable, the DDL "
+            "succeeds once the duplicates are deleted. At most one finding feature per case (tags `kf:…`). "
             "Non-trivial (`nt`) = a DDL statement inside a transaction that rolls back, or DML on a table altered earlier in the case.",
     "assumptions": [
         "in the model ADD / DROP COLUMN re-write the rows the altering transaction sees; rows inserted by a transaction that is "
@@ -71,7 +72,8 @@ TEXT = {
     "design_ref": "DESIGN.md §5 C15",
     "note": "Holds for the specification model. Repaired by fix: commits: ADD COLUMN always failed; two open transactions creating the "
             "same name both committed (the second creator is now refused, and the first one's entry in the name index is no longer replaced); DROP TABLE freed the pages at once (rollback could not "
-            "bring the table back, concurrent readers failed); the catalog's own B+tree page broke after about six entries. Listed "
+            "bring the table back, concurrent readers failed); the catalog's own B+tree page broke after about six entries; a CREATE UNIQUE INDEX / ADD CONSTRAINT failing on colliding "
+            "rows left the table pointing to a missing index. Listed "
             "findings: ALTER inside a rolled-back transaction stays (exact, flag updateKeepsInserterXmin, pinned); the check at commit "
             "compares created names instead of re-checking the catalog (exact, flag commitChecksInsertedKeysOnly: create + drop in one "
             "transaction still blocks the name); first creator wins on relation names (exact, flag createRefusedWhileNameHeld: CREATE TABLE "
